@@ -553,6 +553,10 @@ class EventBus:
         if self.event_queue:
             try:
                 self.event_queue.put_nowait(event)
+                # the bus has work again: wait_until_idle() must not take a stale idle flag for the truth while the run loop
+                # already holds this event (taken off the queue) but has not started on it yet
+                if self._on_idle:
+                    self._on_idle.clear()
                 # Only add to history after successfully queuing
                 self.event_history[event.event_id] = event
                 logger.info(
